@@ -8,7 +8,7 @@ Strings are `List Nat`: the list of the code points of the Rust `String`'s `char
 are the code points 0..255; nothing below depends on that bound except `utf8Len`).  Integer arguments are
 `Int`s that already went through `try_cast::<i32>` (rounding/overflow of that cast belongs to C06).
 
-The model is written for the code as repaired by the `fix:` commits of this property (SPACE$ argument
+The model is written for the code as repaired by the `fix:` commits of this property and 3f6a134 (VAL always returns a DOUBLE) (SPACE$ argument
 check; RIGHT$, MID$, INSTR count characters; LTRIM$/RTRIM$ strip blanks only; CHR$ range check).  The
 section `Legacy` at the end keeps the byte/character-mixing bodies of the pinned tree, to state (in
 Thm/C17.lean) exactly what was wrong with them.
@@ -157,17 +157,27 @@ prints for a negative integer (`-` and the digits of `|k|`). -/
 def strInt (k : Int) : List Nat :=
   if k ≥ 0 then 32 :: decimal k.toNat else 45 :: decimal (-k).toNat
 
+/-- `str_fn.rs` `str_fmt!` on a `VDouble`/`VSingle` whose value is the whole number `k` (and not the
+negative zero): Rust's `Display` for floats prints a whole value as its plain decimal digits, without a
+fractional part and without an exponent, so the text is the one of the integer arms. -/
+def strWholeFloat (k : Int) : List Nat := strInt k
+
 /-- The scanner states of `val.rs`. -/
 inductive VState where
   | initial | sign | int | dot | fraction
   deriving DecidableEq, Repr
 
-/-- What `val` returns (the fractional path, `STATE_FRACTION`, is not modelled). -/
+/-- What `val` returns: always a `Variant::VDouble` (VAL is a DOUBLE function).  The double is given by its
+sign and its magnitude, a natural number below 2^53 (every such number is an `f64`); `double true 0` is
+the negative zero that `VDouble(0.0).negate()` yields for `VAL("-0")`.  The fractional path is not modelled. -/
 inductive VRes where
-  | integer (k : Int)
-  | long (k : Int)
   | double (negative : Bool) (magnitude : Nat)
   deriving DecidableEq, Repr
+
+/-- The numeric value of the double (`-0.0` and `0.0` are both 0). -/
+def VRes.toInt : VRes → Int
+  | .double false m => (m : Int)
+  | .double true m => -(m : Int)
 
 /-- 2^53: below it every natural number is an `f64` and `value * 10.0 + d` is computed exactly. -/
 def exactLimit : Nat := 9007199254740992
@@ -192,13 +202,10 @@ def valScan : List Nat → Bool → Nat → VState → Option (Bool × Nat × VS
       if st = .initial then valScan cs pos v .sign else some (pos, v, st)
     else some (pos, v, st)
 
-/-- The result selection at the end of `val.rs::val` (`MAX_INTEGER` = 32767, `MAX_LONG` = 2147483647). -/
+/-- The end of `val.rs::val`: `VDouble(0.0)` when no digit and no decimal point was seen, otherwise
+`VDouble(value)`, negated when a minus sign was seen (no re-tagging to the smallest fitting type). -/
 def valFinish (pos : Bool) (v : Nat) (st : VState) : VRes :=
-  if st = .initial ∨ st = .sign then .integer 0
-  else if pos ∧ v ≤ 32767 then .integer v
-  else if ¬ pos ∧ v ≤ 32768 then .integer (-(v : Int))
-  else if pos ∧ v ≤ 2147483647 then .long v
-  else if ¬ pos ∧ v ≤ 2147483648 then .long (-(v : Int))
+  if st = .initial ∨ st = .sign then .double false 0
   else .double (!pos) v
 
 /-- `val.rs::val` on the integer path (`none`: outside the modelled fragment). -/
